@@ -12,6 +12,7 @@ import (
 type MutexState struct {
 	locked bool
 	owner  int
+	vc     VC
 }
 
 type RWState struct {
@@ -19,13 +20,18 @@ type RWState struct {
 	readers        int
 	waitingWriters int
 	owner          int
+	wvc, rvc       VC // clocks published by the last writer unlock / the reader unlocks
 }
 
-type WGState struct{ n int }
+type WGState struct {
+	n  int
+	vc VC
+}
 
 type OnceState struct {
 	done    bool
 	running bool
+	vc      VC
 }
 
 // ForeignLocksDirect lets goroutines the engine does not control (library
@@ -72,6 +78,7 @@ func MutexLock(m *MutexState) {
 	}
 	m.locked = true
 	m.owner = w.cur.ID
+	hbAcquire(m.vc)
 }
 
 func MutexTryLock(m *MutexState) bool {
@@ -93,6 +100,7 @@ func MutexUnlock(m *MutexState) {
 	if !m.locked && !direct() {
 		panic("sync: unlock of unlocked mutex")
 	}
+	hbRelease(&m.vc)
 	m.locked = false
 }
 
@@ -113,6 +121,8 @@ func RWLock(m *RWState) {
 	if !m.writer && m.readers == 0 {
 		m.writer = true
 		m.owner = w.cur.ID
+		hbAcquire(m.wvc)
+		hbAcquire(m.rvc)
 		return
 	}
 	// blocked writer: announced, new readers are held back (Go's writer preference)
@@ -124,6 +134,8 @@ func RWLock(m *RWState) {
 	m.waitingWriters--
 	m.writer = true
 	m.owner = w.cur.ID
+	hbAcquire(m.wvc)
+	hbAcquire(m.rvc)
 }
 
 func RWTryLock(m *RWState) bool {
@@ -141,6 +153,7 @@ func RWUnlock(m *RWState) {
 	if !m.writer && !direct() {
 		panic("sync: Unlock of unlocked RWMutex")
 	}
+	hbRelease(&m.wvc)
 	m.writer = false
 }
 
@@ -159,6 +172,7 @@ func RWRLock(m *RWState) {
 		return
 	}
 	m.readers++
+	hbAcquire(m.wvc)
 }
 
 func RWTryRLock(m *RWState) bool {
@@ -179,10 +193,14 @@ func RWRUnlock(m *RWState) {
 		}
 		panic("sync: RUnlock of unlocked RWMutex")
 	}
+	hbReleaseJoin(&m.rvc)
 	m.readers--
 }
 
 func WGAdd(g *WGState, d int) {
+	if d < 0 {
+		hbReleaseJoin(&g.vc)
+	}
 	g.n += d
 	if g.n < 0 && !direct() {
 		panic("sync: negative WaitGroup counter")
@@ -194,6 +212,7 @@ func WGWait(g *WGState) {
 		return
 	}
 	yield(pendingOp{kind: opWait, wg: g, what: "WaitGroup"})
+	hbAcquire(g.vc)
 }
 
 func OnceDo(o *OnceState, f func()) {
@@ -206,14 +225,16 @@ func OnceDo(o *OnceState, f func()) {
 	}
 	yield(pendingOp{kind: opYield, what: "Once.Do"})
 	if o.done {
+		hbAcquire(o.vc)
 		return
 	}
 	if o.running {
 		yield(pendingOp{kind: opOnce, once: o})
+		hbAcquire(o.vc)
 		return
 	}
 	o.running = true
-	defer func() { o.done = true; o.running = false }()
+	defer func() { hbRelease(&o.vc); o.done = true; o.running = false }()
 	f()
 }
 
@@ -308,6 +329,15 @@ func (wd *World) afterRecv(p uintptr, committed bool) {
 	if cs == nil {
 		return
 	}
+	// happens-before: the receiver learns what the sender (or the closer) knew
+	if hbActive() {
+		if len(cs.vcq) > 0 {
+			hbAcquire(cs.vcq[0])
+			cs.vcq = cs.vcq[1:]
+		} else if cs.closed {
+			hbAcquire(cs.closeVC)
+		}
+	}
 	if committed {
 		cs.committed--
 		return
@@ -325,6 +355,10 @@ func (wd *World) afterSend(p uintptr, self *Thread) {
 	}
 	if cs.closed {
 		return // the real send panics, as in Go
+	}
+	if hbActive() {
+		cs.vcq = append(cs.vcq, self.vc.copy())
+		self.tick()
 	}
 	if cs.cap > 0 {
 		cs.n++
@@ -378,6 +412,7 @@ func Cl[C any](c C) C {
 	}
 	if cs := w.chans[p]; cs != nil {
 		cs.closed = true
+		hbRelease(&cs.closeVC)
 	}
 	return c
 }
